@@ -154,7 +154,7 @@ reg("C04",
     H("c04_q32_spellings", "c04::q32::spellings", unwind=34, timeout=1800, mem_gb=12, tier="thorough", funcs=["Q32E2 +=/-= tuple, nested-tuple and array operands"], space_bits=641, bound="every state and operands"),
     )
 for op, nm in ((0, "add_prod"), (1, "sub_prod"), (2, "add_one"), (3, "sub_one")):
-    reg("C04", H("c04_q32_step_" + nm, "c04::q32::step", gen=str(op), unwind=34, covers=2, timeout=1800, mem_gb=10, tier="quick" if op == 2 else "thorough",
+    reg("C04", H("c04_q32_step_" + nm, "c04::q32::step", gen=str(op), unwind=34, covers=2, timeout=1800, mem_gb=10, tier="quick" if op in (0, 2) else "thorough",
                  funcs=["Q32E2 %s" % ["+= (P32E2,P32E2)", "-= (P32E2,P32E2)", "+= P32E2", "-= P32E2"][op]], space_bits=576,
                  bound="every 512-bit quire state, every operand (pair); result pattern != NaR"))
 
@@ -165,7 +165,8 @@ reg("C12",
     H("c12_q8_split", "c12::q8::split", unwind=34, timeout=300, funcs=["Q8E0::into_two_posits", "Q8E0::into_three_posits"], space_bits=32, bound="every non-NaR state whose residuals are not the NaR pattern"),
     H("c12_q16_roundtrip", "c12::q16::roundtrip", unwind=130, funcs=["From<P16E1> for Q16E1", "Q16E1::from_posit", "Q16E1::to_posit", "From<Q16E1> for P16E1"], space_bits=16, bound="every P16E1"),
     H("c12_q16_state_ops", "c12::q16::state_ops", unwind=130, funcs=["Q16E1::neg", "Q16E1::clear", "Q16E1::from_bits", "Q16E1::to_bits"], space_bits=128, bound="every 128-bit state"),
-    H("c12_q16_split", "c12::q16::split", unwind=130, timeout=2400, tier="thorough", funcs=["Q16E1::into_two_posits", "Q16E1::into_three_posits"], space_bits=128, bound="every non-NaR state whose residuals are not the NaR pattern"),
+    H("c12_q16_split2", "c12::q16::split2", unwind=130, timeout=1800, funcs=["Q16E1::into_two_posits"], space_bits=128, bound="every non-NaR state whose residual is not the NaR pattern"),
+    H("c12_q16_split", "c12::q16::split", unwind=130, timeout=3600, tier="thorough", funcs=["Q16E1::into_three_posits"], space_bits=128, bound="every non-NaR state whose residuals are not the NaR pattern"),
     H("c12_q32_roundtrip", "c12::q32::roundtrip", unwind=66, timeout=3600, mem_gb=10, tier="thorough", funcs=["From<P32E2> for Q32E2", "Q32E2::from_posit", "Q32E2::to_posit", "From<Q32E2> for P32E2"], space_bits=32, bound="every P32E2"),
     H("c12_q32_state_ops", "c12::q32::state_ops", unwind=66, timeout=300, funcs=["Q32E2::neg", "Q32E2::clear", "Q32E2::from_bits", "Q32E2::to_bits"], space_bits=512, bound="every 512-bit state"),
     H("c12_q32_split2", "c12::q32::split2", unwind=66, timeout=2400, mem_gb=14, tier="thorough", funcs=["Q32E2::into_two_posits"], space_bits=512, bound="every non-NaR state whose residual is not the NaR pattern"),
